@@ -588,12 +588,16 @@ func head(s string, n int) string {
 
 // hangSite derives a stable site from a watchdog stack dump: the library frames
 // of the goroutines that were running (a spin), else of those blocked.
+// UnsimulatedBlock prefixes the site of a hang that is an artefact of the simulation (see hangSite).
+const UnsimulatedBlock = "unsimulated-block@"
+
 func hangSite(stderr string) string {
 	i := strings.Index(stderr, "VERIF-HANG")
 	if i < 0 {
 		return "no-return"
 	}
-	var running, blocked []string
+	var running, blocked, realBlocked []string
+	underScheduler := strings.Contains(stderr[i:], "verif/sched.rawRead")
 	for _, b := range strings.Split(stderr[i:], "\n\n") {
 		lines := strings.Split(b, "\n")
 		for len(lines) > 0 && !strings.HasPrefix(lines[0], "goroutine ") {
@@ -625,12 +629,23 @@ func hangSite(stderr string) string {
 			running = append(running, site)
 		} else {
 			blocked = append(blocked, site)
+			if !strings.Contains(b, "verif/sched.rawRead") {
+				realBlocked = append(realBlocked, site) // blocked in something that is not the scheduler's own parking
+			}
 		}
 	}
 	sort.Strings(running)
 	sort.Strings(blocked)
+	sort.Strings(realBlocked)
 	if len(running) > 0 {
 		return "spin@" + strings.Join(running, ",")
+	}
+	if underScheduler && len(realBlocked) > 0 {
+		// Under the baton scheduler exactly one worker runs. If that one blocks in a primitive the
+		// simulator has no seam for (sync.Once, sync.Cond, a channel, a WaitGroup ...) while the worker
+		// that would release it is parked by the scheduler, nothing moves - because of the simulation,
+		// not necessarily because of the code. The simulator cannot decide this case.
+		return UnsimulatedBlock + strings.Join(realBlocked, ",")
 	}
 	if len(blocked) > 0 {
 		return "blocked@" + strings.Join(blocked, ",")
@@ -1122,6 +1137,9 @@ func runWorker(j job, cfg Config, workdir string) (fs []found, trouble []string,
 		} else {
 			sig, det, ok := confirmSeed(cs, cfg, confirmTimeout(cfg))
 			switch {
+			case ok && strings.HasPrefix(sig, "hang|"+UnsimulatedBlock):
+				trouble = append(trouble, fmt.Sprintf("case seed %d: a worker of the simulated schedule blocked in a synchronisation primitive the simulator has no seam for (%s); this tree cannot be decided by this world (not a violation)", cs, strings.TrimPrefix(sig, "hang|"+UnsimulatedBlock)))
+				abort.Store(true)
 			case ok && sig != "":
 				fs = append(fs, found{v: Violation{Class: strings.SplitN(sig, "|", 2)[0], Sig: sig, Detail: det}, seed: cs, tape: seedTape(cs, cfg), subproc: true})
 				// a confirmed crash or hang: the verdict is settled, do not spend the rest of the budget dying
